@@ -77,11 +77,84 @@ theorem loopStart_eq (slots : Slots) (rs : RS) :
     ((StepLoop.loopStart slots rs).1.map cvP, (StepLoop.loopStart slots rs).2) = Qmc.loopStart slots rs := by
   unfold StepLoop.loopStart Qmc.loopStart
   simp only [nthOp_eq]
-  split
+  rcases hn : Qmc.nthOp slots (rs.genRange (countOps slots)).1 with _ | p
   · rfl
-  · split
+  · simp only []
+    rcases hs : slots[p]? with _ | _ | op
+    · rfl
+    · rfl
     · simp only []
       split <;> rfl
+
+theorem loopBody_eq (w : Nat → List Bool → List Bool → Rat) (init : Nat × StepLoop.Leg) (pos : Nat)
+    (ent : StepLoop.Leg) (s : StepLoop.LoopSt) :
+    (cvS (StepLoop.loopBody w init pos ent s).1, (StepLoop.loopBody w init pos ent s).2.map cvP)
+      = Qmc.loopBody w (cvP init) pos (cv ent) (cvS s) := by
+  unfold StepLoop.loopBody Qmc.loopBody
+  have e1 : (cvS s).slots = s.slots := rfl
+  have e2 : (cvS s).rs = s.rs := rfl
+  have e3 : (cvS s).state = s.state := rfl
+  rw [e1]
+  rcases hs : s.slots[pos]? with _ | _ | op
+  · rfl
+  · rfl
+  · simp only [exitWeights_eq, sumR_eq, pickIdx_eq, pickMargin_eq, e2, e3]
+    generalize Qmc.exitWeights (w op.bond) (op.ins, op.outs) (cv ent) op.vars.length = ws
+    generalize s.rs.genRangeF (Qmc.sumR ws) = g
+    by_cases hp : (g.2.panicked || g.2.short) = true
+    · simp only [hp, if_true]; rfl
+    · simp only [hp]
+      rcases hj : Qmc.pickIdx g.1 ws with _ | j
+      · rfl
+      · simp only []
+        generalize (if g.1 = 0 then g.2 else g.2.noteMargin (Qmc.pickMargin g.1 ws / Qmc.sumR ws)) = rs'
+        have hex := getD_legs op.vars.length j
+        rw [← hex]
+        generalize (StepLoop.legsOf op.vars.length).getD j default = ex
+        rw [passThrough_eq, moveOn_eq]
+        by_cases hi : (pos, ex) = init
+        · have hi' : (pos, cv ex) = cvP init := (cvP_eq_iff pos ex init).2 hi
+          simp only [hi, hi', if_true]; rfl
+        · have hi' : ¬ (pos, cv ex) = cvP init := fun h => hi ((cvP_eq_iff pos ex init).1 h)
+          simp only [hi, hi', if_false, Bool.false_eq_true]
+          rcases Qmc.moveOn s.slots s.state pos (Qmc.passThrough op (cv ent) (cv ex)) (cv ex) with ⟨state', _ | ⟨p', r'⟩⟩
+          · rfl
+          · simp only []
+            have hc : ((p', (⟨r', !(cv ex).out⟩ : Qmc.Leg)) = cvP init) ↔ ((p', (⟨r', !ex.out⟩ : StepLoop.Leg)) = init) :=
+              cvP_eq_iff p' ⟨r', !ex.out⟩ init
+            by_cases h2 : (p', (⟨r', !ex.out⟩ : StepLoop.Leg)) = init
+            · simp only [h2, hc.2 h2, if_true]; rfl
+            · have h2' : ¬ (p', (⟨r', !(cv ex).out⟩ : Qmc.Leg)) = cvP init := fun h => h2 (hc.1 h)
+              simp only [h2, h2', if_false]; rfl
+
+theorem loopIter_eq (w : Nat → List Bool → List Bool → Rat) (init : Nat × StepLoop.Leg) :
+    ∀ (fuel pos : Nat) (ent : StepLoop.Leg) (s : StepLoop.LoopSt),
+      cvS (StepLoop.loopIter w init fuel pos ent s) = Qmc.loopIter w (cvP init) fuel pos (cv ent) (cvS s)
+  | 0, _, _, _ => rfl
+  | fuel + 1, pos, ent, s => by
+    unfold StepLoop.loopIter Qmc.loopIter
+    rw [← loopBody_eq w init pos ent s]
+    rcases StepLoop.loopBody w init pos ent s with ⟨s', _ | ⟨p, e⟩⟩
     · rfl
+    · exact loopIter_eq w init fuel p e s'
+
+/-- **`stepLoop_eq`** — the copy is the original, as functions -/
+theorem stepLoop_eq (w : Nat → List Bool → List Bool → Rat) (cfg : Config) (rs : RS) :
+    StepLoop.loopUpdate w cfg rs = Qmc.loopUpdate w cfg rs := by
+  unfold StepLoop.loopUpdate Qmc.loopUpdate
+  split
+  · rfl
+  · rw [← loopStart_eq]
+    rcases StepLoop.loopStart cfg.slots rs with ⟨_ | ⟨p, leg⟩, rs'⟩
+    · rfl
+    · have h := loopIter_eq w (p, leg) (rs'.script.length + 1) p leg ⟨cfg.state, cfg.slots, rs'⟩
+      simp only [Option.map_some, cvP]
+      have h' : Qmc.loopIter w (p, cv leg) (rs'.script.length + 1) p (cv leg) ⟨cfg.state, cfg.slots, rs'⟩
+          = cvS (StepLoop.loopIter w (p, leg) (rs'.script.length + 1) p leg ⟨cfg.state, cfg.slots, rs'⟩) := h.symm
+      simp only [h']
+      rfl
+
+theorem stepLoop_funext : StepLoop.loopUpdate = Qmc.loopUpdate := by
+  funext w cfg rs; exact stepLoop_eq w cfg rs
 
 end Qmc.Sampler
